@@ -82,8 +82,13 @@ def trust_table():
             parts = []
             for c in ck:
                 m = re.search(r"\* Axioms: (.*?) \* Constants", c.get("summary", ""))
-                parts.append("%s: %s" % (c["module"].replace("QV.Props.", ""),
-                                         esc(m.group(1))[:200] if m else "rc=%s" % c.get("rc")))
+                if m:
+                    txt = esc(m.group(1))[:200]
+                else:
+                    m2 = re.search(r"Axioms:(.*)", c.get("summary", ""))
+                    txt = ("rc=%s" % c.get("rc")) + ((" " + esc(m2.group(1))[:220]) if m2 else
+                                                    (" (skipped / not finished)" if c.get("rc") not in (0,) else ""))
+                parts.append("%s: %s" % (c["module"].replace("QV.Props.", ""), txt))
             ck_txt = "; ".join(parts)
         elif not e["coverage"].get("coqchk"):
             ck_txt = "(not run in this tier)"
